@@ -1,7 +1,8 @@
 (* C03 - Index and primary-key equality search returns exactly the matching
    rows.  Property theorems only; proofs are in Proofs/. *)
 From SQ Require Import Model.Base Model.Record Model.Btree Model.Cmp Model.Low
-     Spec.Flat Spec.Deliver Proofs.SearchP Proofs.DeliverP Proofs.LowP Proofs.ScanP.
+     Spec.Flat Spec.Deliver Spec.Order Proofs.SearchP Proofs.DeliverP Proofs.LowP Proofs.ScanP Proofs.CmpP Proofs.SortedP.
+From Coq Require Import Sorting.Sorted.
 
 (* Index.ScanEq delivers, in index order, the run of entries equal to the key
    that starts at the first entry not less than the key ... *)
@@ -27,3 +28,24 @@ Theorem C03_scan_eq_collect : forall pg op npages root key l,
   = (None, rev (take_while (equals key) (drop_lt (search key) l))).
 Proof. exact index_scan_eq_all. Qed.
 Print Assumptions C03_scan_eq_collect.
+
+(* the layout hypothesis, derived from C11: an index whose entries are sorted entry to entry
+   by the index's own order (per column SQLite's order under the column's collation, DESC
+   reversed; lexicographic) is less* equal* greater* for every key that carries the index's
+   collations and directions on a prefix of its columns ... *)
+Theorem C03_sorted_layout : forall cols k l, key_matches cols k ->
+  Forall (fun kc => storable (kv kc)) k -> Forall (Forall storable) l ->
+  Sorted (fun r1 r2 => cle (rcmp cols r1 r2)) l ->
+  three_runs record (search k) (equals k) l.
+Proof. exact sorted_index_three_runs. Qed.
+Print Assumptions C03_sorted_layout.
+
+(* ... so that on such an index the equality search returns exactly the entries equal to the
+   key - none missing, none extra - in index order *)
+Theorem C03_scan_eq_sorted : forall pg op npages root cols l,
+  index_rows pg op npages root = (l, None) -> Forall (Forall storable) l ->
+  Sorted (fun r1 r2 => cle (rcmp cols r1 r2)) l ->
+  forall key, key_matches cols key -> Forall (fun kc => storable (kv kc)) key ->
+  outcome (index_scan_eq pg op npages _ root key (stop_after None) []) = (None, rev (filter (equals key) l)).
+Proof. exact scan_eq_sorted. Qed.
+Print Assumptions C03_scan_eq_sorted.
